@@ -36,7 +36,8 @@ import (
 // After every completed flush the logical contents (read through the producer's stores)
 // of every database are dumped: S:<n>=<k>:<v>,...;<n>=...
 //
-// Observation:  LOG <log tokens> ; V <verdict per prefix 0..L> ; S <snapshot per flush> ; R<0|1>
+// Before every flush the same dump is taken (without the flush-ID key): Q:<n>=...;...
+// Observation:  LOG <log tokens> ; V <verdict per prefix 0..L> ; S <snapshot per flush> ; Q <pre-flush dump per flush> ; R<0|1>
 // (R1: the live databases at the end equal the replay of the whole log.)
 
 type c25World struct {
@@ -134,11 +135,17 @@ func (b *c25Batch) Write() error {
 }
 func (b *c25Batch) Reset() { b.writes = nil; b.sizeV = 0; b.Batch.Reset() }
 
-func c25Dump(db kvdb.Store) string {
+func c25Dump(db kvdb.Store) string { return c25DumpExcept(db, nil) }
+
+// c25DumpExcept dumps all pairs but the one stored under key skip (nil: nothing skipped)
+func c25DumpExcept(db kvdb.Store, skip []byte) string {
 	var parts []string
 	it := db.NewIterator(nil, nil)
 	defer it.Release()
 	for it.Next() {
+		if skip != nil && bytes.Equal(it.Key(), skip) {
+			continue
+		}
 		parts = append(parts, vu.Hex(it.Key())+":"+vu.Hex(it.Value()))
 	}
 	return strings.Join(parts, ",")
@@ -228,7 +235,21 @@ func c25Run(in []string) []string {
 	} else {
 		prod = flaggedproducer.Wrap(w, fk)
 	}
-	var snaps []string
+	var snaps, pres []string
+	openNames := func() []string {
+		var names []string
+		if pool != nil {
+			names = pool.Names()
+		} else {
+			names = w.Names()
+		}
+		sort.Slice(names, func(i, j int) bool {
+			a, _ := strconv.Atoi(c25Num(names[i]))
+			b, _ := strconv.Atoi(c25Num(names[j]))
+			return a < b
+		})
+		return names
+	}
 	for _, o := range ops {
 		if len(o) == 0 {
 			continue
@@ -268,6 +289,16 @@ func c25Run(in []string) []string {
 			_ = s.Close()
 			s.Drop()
 		case "F":
+			// the user-visible contents of every open database BEFORE the flush, read through the
+			// producer (for the pool: the cache over the underlying database), flush-ID key left out
+			w.quiet = true
+			var pre []string
+			for _, n := range openNames() {
+				s, _ := prod.OpenDB(n)
+				pre = append(pre, c25Num(n)+"="+c25DumpExcept(s, fk))
+			}
+			w.quiet = false
+			pres = append(pres, "Q:"+strings.Join(pre, ";"))
 			w.log = append(w.log, "F")
 			if err := prod.Flush(vu.UnHex(o[1])); err != nil {
 				w.log = append(w.log, "ferr")
@@ -275,19 +306,8 @@ func c25Run(in []string) []string {
 			w.log = append(w.log, "f")
 			// logical contents of every open database, read through the producer
 			w.quiet = true
-			var names []string
-			if pool != nil {
-				names = pool.Names()
-			} else {
-				names = w.Names()
-			}
-			sort.Slice(names, func(i, j int) bool {
-				a, _ := strconv.Atoi(c25Num(names[i]))
-				b, _ := strconv.Atoi(c25Num(names[j]))
-				return a < b
-			})
 			var parts []string
-			for _, n := range names {
+			for _, n := range openNames() {
 				s, _ := prod.OpenDB(n)
 				parts = append(parts, c25Num(n)+"="+c25Dump(s))
 			}
@@ -335,6 +355,8 @@ func c25Run(in []string) []string {
 			}
 			obs = append(obs, ";", "S")
 			obs = append(obs, snaps...)
+			obs = append(obs, ";", "Q")
+			obs = append(obs, pres...)
 			obs = append(obs, ";", "R"+vu.B(same))
 		}
 	}
@@ -491,8 +513,6 @@ func c25Gen(r *rand.Rand, n int, tier string, emit func(...string)) {
 		emit(in...)
 	}
 }
-
-var _ = bytes.Equal
 
 func init() {
 	vu.Register("C25", &vu.Prop{Gen: c25Gen, Run: c25Run})
